@@ -192,7 +192,20 @@ class Interp(Engine):
         return fr.lookup(n.id)
 
     def ev_Attribute(self, n, fr):
-        return self.getattr_(self.ev(n.value, fr), n.attr)
+        base = self.ev(n.value, fr)
+        if n.attr == "pi" and getattr(base, "__name__", "") in ("numpy", "math"):
+            return self.pi_const()
+        return self.getattr_(base, n.attr)
+
+    def pi_const(self):
+        """pi is an abstract real constant with 3.14159 < pi < 3.1416 (only algebraic
+        facts about it are ever used)."""
+        if "pi" not in self.ghost:
+            p = Sym(z3.Real("pi"), "real")
+            self.assume(z3.And(p.z > z3.RealVal("3.14159"), p.z < z3.RealVal("3.1416")))
+            self.ghost["pi"] = p
+            self.assumptions.add("pi: abstract constant with 3.14159 < pi < 3.1416")
+        return self.ghost["pi"]
 
     def ev_Tuple(self, n, fr):
         out = []
@@ -485,10 +498,12 @@ class Interp(Engine):
         fr = Frame(parent=func.frame, globs=func.globs, func=func)
         self.bind_params(func, args, kwargs, fr)
         self.inline_stack.append(func.key)
+        saved = self.cur_frame
         try:
             return self.run_body(func, fr)
         finally:
             self.inline_stack.pop()
+            self.cur_frame = saved
 
     def run_body(self, func, fr):
         node = func.node
@@ -508,6 +523,7 @@ class Interp(Engine):
             self.exec(s, fr)
 
     def exec(self, s, fr):
+        self.cur_frame = fr
         m = getattr(self, "ex_" + type(s).__name__, None)
         if m is None:
             raise Unsupported(f"statement {type(s).__name__} at line {getattr(s, 'lineno', '?')}")
@@ -525,6 +541,26 @@ class Interp(Engine):
         v = self.ev(s.value, fr)
         for t in s.targets:
             self.assign(t, v, fr)
+        self.annotations_after(s.targets, fr)
+
+    def annotations_after(self, targets, fr):
+        """proof annotations of the sidecar contract: `asserts_after[var]` clauses are
+        proved (then assumed) right after an assignment to `var` in the carrier itself."""
+        c = self.cur_contract
+        if c is None or fr.func is None or fr.func.key != self.cur_key or self.spec_mode:
+            return
+        ann = c.options.get("asserts_after")
+        if not ann:
+            return
+        names = [x.id for t in targets for x in ast.walk(t) if isinstance(x, ast.Name)]
+        from .spec import eval_clause, split_label
+
+        for nm in names:
+            for j, cl in enumerate(ann.get(nm, [])):
+                lab, text = split_label(cl, f"a{j}")
+                self.cur_frame = fr
+                val = eval_clause(self, text, self.visible_vars(), fr.globs, old_vars=self.top_old, extra=self.spec_extra)
+                self.prove(f"{c.short}/annot/after-{nm}/{lab}", val, "annotation")
 
     def ex_AnnAssign(self, s, fr):
         if s.value is not None:
